@@ -141,3 +141,97 @@ Proof.
   - apply (mixed_cons (mkm false false [mkf 2 (KStruct 2)]) true false [] (tlv 2 [9; 1; 170; 1; 1; 5]) [] []);
       [apply unk_nil; reflexivity|apply mixed_nil; apply unk_nil; reflexivity].
 Qed.
+
+(* ================================================================================================ *)
+(* Rejection at every depth (ignoreCritical = false): an unrecognised CRITICAL element at an element boundary of the model
+   — or of a nested model value reached through struct fields and elements of sequences of structs, at any depth — makes
+   the parser return ErrUnrecognizedField, whatever follows it; what precedes it may carry skippable noise at every depth. *)
+Lemma mixedk_mono m ic (K1 K2 : bytes -> Prop) : (forall x, K1 x -> K2 x) ->
+  forall es x, mixedk m ic K1 es x -> mixedk m ic K2 es x.
+Proof. intros H es x M. induction M; constructor; auto. Qed.
+
+Fixpoint noisy_crit (sc : schema) (fuel : nat) (mi : nat) (x : bytes) {struct fuel} : Prop :=
+  match fuel with
+  | O => False
+  | S f =>
+    exists m vs, nth_error sc mi = Some m /\ wf_value (S f) sc mi vs = true /\
+     ((* the critical element is at a boundary of this model *)
+      (exists es, nelems sc f (nq sc false (S f)) (flds m) vs es /\ mixed m false true es x) \/
+      (* or inside the value of field j: a struct field, or an element of a sequence of structs after good elements *)
+      (exists j g es, nth_error (flds m) j = Some g /\
+          nelems sc f (nq sc false (S f)) (firstn j (flds m)) (firstn j vs) es /\
+          mixedk m false
+            (fun y =>
+               (exists m' u plb junk, fk g = KStruct m' /\ unk m false false u /\ small plb /\ noisy_crit sc f m' plb /\
+                                      y = u ++ tlv (ftyp g) plb ++ junk) \/
+               (exists m' (lp : list (value * bytes)), fk g = KSeq (KStruct m') /\
+                  (forall e pl, In (e, pl) lp -> is_none e = false /\ wf_val f sc (KStruct m') e = true /\ small pl /\
+                                                 payq sc (nq sc false (S f)) (pred f) (KStruct m') e pl) /\
+                  mixedk m false
+                    (fun z => exists u plb junk, unk m false false u /\ small plb /\
+                                match f with O => False | S f1 => noisy_crit sc f1 m' plb end /\
+                                z = u ++ tlv (ftyp g) plb ++ junk)
+                    (map (fun ep => tlv (ftyp g) (snd ep)) lp) y))
+            es x))
+  end.
+
+Theorem bparse_noisy_crit sc : schema_wf sc = true ->
+  forall f D mi x, (S f < D)%nat -> noisy_crit sc f mi x -> bparse D sc mi false (br_of x) = Err E_CRITICAL.
+Proof.
+  intros Hsc. induction f as [f IH] using lt_wf_ind. intros D mi x HfD Hn.
+  destruct f as [|f]; [destruct Hn|].
+  cbn [noisy_crit] in Hn. destruct Hn as [m [vs [Hm [Hw Hcase]]]].
+  destruct D as [|D]; [lia|].
+  rewrite bparse_S, Hm. unfold br_of.
+  assert (HQ : forall m' fs' pl, nq sc false (S f) m' fs' pl -> exists cx cv, bparse D sc m' false (br_of pl) = Ok (fs', cx, cv)).
+  { cbn [nq]. intros m' fs' pl [H|H].
+    - apply (bparse_noisy sc Hsc f); [lia|exact H].
+    - destruct f as [|f1]; [destruct H|]. apply (bparse_noisy sc Hsc f1); [lia|exact H]. }
+  pose proof Hw as Hw'. unfold wf_value in Hw'. rewrite Hm in Hw'.
+  assert (Hinv : inv m vs 0 (init_pst m) (-1)%Z) by (apply init_inv; symmetry; eapply all2_length; eauto).
+  destruct Hcase as [[es [Hnel Hmix]] | [j [g [es [Hg [Hnel Hmix]]]]]].
+  - apply (fields_loop_g sc D D (sub_exact sc Hsc D) m (length sc) (schema_model_wf sc mi m Hsc Hm) false f ltac:(lia) vs Hw'
+             (nq sc false (S f)) HQ true (length (flds m)) 0%nat ltac:(lia) ltac:(lia) es x); auto.
+    rewrite br_len_mk, br_pos_mk. cbn [length]. lia.
+  - apply (fields_loop_bad sc D D (sub_exact sc Hsc D) m (length sc) (schema_model_wf sc mi m Hsc Hm) false f ltac:(lia) vs Hw'
+             (nq sc false (S f)) HQ j g Hg es x); auto.
+    + eapply mixedk_mono; [|exact Hmix]. intros y [[m' [u [plb [junk [Ek [Hu [Hs [Hc ->]]]]]]]] | [m' [lp [Ek [Hl Hmk]]]]].
+      * left. exists m', u, plb, junk. repeat split; auto. apply (IH f); [lia|lia|exact Hc].
+      * right. exists m', lp. split; [exact Ek|]. split; [exact Hl|].
+        eapply mixedk_mono; [|exact Hmk]. intros z [u [plb [junk [Hu [Hs [Hc ->]]]]]].
+        exists u, plb, junk. repeat split; auto. destruct f as [|f1]; [destruct Hc|]. apply (IH f1); [lia|lia|exact Hc].
+    + rewrite br_len_mk, br_pos_mk. cbn [length]. lia.
+Qed.
+
+Theorem decode_noisy_crit sc : schema_wf sc = true ->
+  forall f mi x, noisy_crit sc f mi x -> decode sc mi false x = Err E_CRITICAL.
+Proof.
+  intros Hsc f mi x Hn. set (D := Nat.max (S (S f)) (length x)).
+  rewrite <- (decode_as_deep sc mi false x D) by lia.
+  apply (bparse_noisy_crit sc Hsc f); [lia|exact Hn].
+Qed.
+
+Theorem decode_wire_noisy_crit sc : schema_wf sc = true ->
+  forall f mi segs, noisy_crit sc f mi (concat segs) -> decode_wire sc mi false segs = Err E_CRITICAL.
+Proof. intros Hsc f mi segs Hn. apply wire_err. apply (decode_noisy_crit sc Hsc f). exact Hn. Qed.
+
+(* the same concrete input as above, now with ignoreCritical = false: 02 06 [09 01 aa] 01 01 05 is rejected because of the
+   critical element inside the nested Inner value *)
+Example nested_crit_example :
+  noisy_crit pkg_std_encoding_tests_gen_composition 2 3 [2; 6; 9; 1; 170; 1; 1; 5].
+Proof.
+  cbn [noisy_crit].
+  exists (mkm false false [mkf 2 (KStruct 2)]), [VStruct [VNat 5]].
+  split; [reflexivity|]. split; [reflexivity|]. right.
+  exists 0%nat, (mkf 2 (KStruct 2)), []. split; [reflexivity|]. split; [constructor|].
+  apply mk_nil. left. exists 2%nat, [], [9; 1; 170; 1; 1; 5], []. split; [reflexivity|]. split; [apply unk_nil; reflexivity|].
+  split; [unfold small, two63; cbn; lia|]. split; [|reflexivity].
+  exists (mkm false false [mkf 1 (KNat false)]), [VNat 5].
+  split; [reflexivity|]. split; [reflexivity|]. left.
+  exists [tlv 1 [5]]. split.
+  - change [tlv 1 [5]] with ([tlv (ftyp (mkf 1 (KNat false))) [5]] ++ []).
+    apply nel_cons; [|constructor].
+    apply ne_single; [reflexivity|reflexivity|unfold small, two63; cbn; lia|reflexivity].
+  - apply mixed_stop; [reflexivity|].
+    apply (unk_crit (mkm false false [mkf 1 (KNat false)]) false true 9 1 [170; 1; 1; 5]); try reflexivity; unfold two64; lia.
+Qed.
